@@ -3,8 +3,10 @@
 stdin : {"histories": [[[text, flag], ...], ...]}
 stdout: {"version": str, "histories": [{"tmp": dir, "runs": [{"result":…, "events":[…],
          "listing": {...}, "entries": {name: fp|"BAD:<exc>"}}]}]}
-Every run is a forked child (own tempfile state, own audit hook): like separate
-processes that share the temp directory.
+isolation "fork" (default): every run is a forked child (own tempfile state, own audit hook):
+separate processes that share the temp directory. isolation "inproc": runs are made in
+this process with TMPDIR / tempfile state reset per run and a switchable audit sink (two
+orders of magnitude cheaper on this machine; the first `fork_first` histories still fork).
 """
 import json
 import os
@@ -25,6 +27,10 @@ def one_run(model_path, flag):
     res = cachelib.result_of(lambda: run.load_model(model_path, flag) if flag is not None
                              else run.load_model(model_path))
     return {"result": res, "events": list(events)}
+
+
+def one_run_inproc(model_path, flag):
+    return {"result": cachelib.result_of(lambda: run.load_model(model_path, flag))}
 
 
 def entries(tmp):
@@ -53,7 +59,10 @@ def main():
         runs = []
         for text, flag in hist:
             model.write_text(text, encoding="utf-8")
-            r = cachelib.run_child(lambda: one_run(model, flag), tmpdir=tmp)
+            if payload.get("isolation", "fork") == "fork" or i < payload.get("fork_first", 0):
+                r = cachelib.run_child(lambda: one_run(model, flag), tmpdir=tmp)
+            else:
+                r = cachelib.run_inproc(lambda: one_run_inproc(model, flag), tmp)
             d = r["data"] or {"result": {"class": "exc", "type": f"child-exit-{r['exit']}", "msg": ""},
                               "events": []}
             d["listing"] = cachelib.list_tmp(tmp)
